@@ -181,7 +181,8 @@ class Framer(tasking.Tasker):
 
     def prune(self):
         """
-        Recursively Prune (destroy) all insular auxiliary clones in all frames
+        Recursively Prune (destroy) all auxiliary clones made by this framer,
+        insular and named, in all frames
         Force exit if not done
         Called by Razer Actor when razing insular auxes from frame
         """
@@ -190,7 +191,10 @@ class Framer(tasking.Tasker):
             self.exitAll()
 
         for frame in self.frameNames.values():
-            prunables = [aux for aux in frame.auxes if aux.insular]
+            # named clone is registered under this framer's name so unless pruned
+            # as well its name stays taken and this framer can not be cloned again
+            prunables = [aux for aux in frame.auxes
+                         if aux.insular or self.auxes.get(aux.tag) is aux]
             for aux in prunables:
                 aux.prune()
                 frame.auxes.remove(aux)
